@@ -124,9 +124,15 @@ fn single_faults(name: &'static str, kinds: Vec<FaultKind>) -> Family<ClientPlan
 /// sensible time-out policy. No failure, so every command goes out once, on the one connection.
 fn slow_families() -> Vec<Family<ClientPlan>> {
     vec![
-        Family::new("client_slow_but_healthy_terminal", 3 * 4, true, |i, _| {
+        Family::new("client_slow_but_healthy_terminal", 3 * 4 * 2, true, |i, _| {
             let mut p = ClientPlan::plain(workloads()[(i % 3) as usize].clone());
             p.cfg.max_tx = 2;
+            // every other run the intermediate statuses carry a time-out byte of "1" (a minute, by the
+            // specification): information for the display, not a deadline for the next packet
+            if i / 12 == 1 {
+                p.pt.intermediate_timeout = Some(1);
+            }
+            let i = i % 12;
             // (every packet within 10 s of the previous one; a card reading - up to three packets here -
             // as a whole inside the configured time)
             match i / 3 {
@@ -209,6 +215,24 @@ fn stale_behind_final_frames() -> Family<ClientPlan> {
     })
 }
 
+/// A failure in a call, then a failure of another kind in the handshake of the replacement connection
+/// (behind its registration completion / identity reply): nothing more is written there either.
+fn fault_then_fault_in_retry_handshake(kinds: Vec<FaultKind>) -> Family<ClientPlan> {
+    let wl = workloads();
+    let n = (wl.len() * kinds.len() * 3) as u64;
+    let wl = Arc::new(wl);
+    Family::new("client_failure_then_failure_in_the_retry_handshake", n, true, move |i, _| {
+        let kind = kinds[(i as usize) % kinds.len()];
+        let point = [2u16, 4, 3][(i as usize / kinds.len()) % 3];
+        let mut p = ClientPlan::plain(wl[(i as usize / kinds.len() / 3) % wl.len()].clone());
+        p.cfg.max_tx = 2;
+        p.faults = vec![FaultSpec { conn: 0, point: 14, kind: FaultKind::Eof }, FaultSpec { conn: 1, point, kind }];
+        p.pt.nack_keeps_connection = true;
+        p.label = format!("via_client/retry_handshake/{:?}", kind);
+        p
+    })
+}
+
 pub fn client_families(id: &str, _tier: Tier) -> Vec<Family<ClientPlan>> {
     let mut f = match id {
         // framing: a packet that stops half-way (stall, end of stream) - the rest of it, or the next
@@ -223,7 +247,7 @@ pub fn client_families(id: &str, _tier: Tier) -> Vec<Family<ClientPlan>> {
         "C06" => vec![single_faults(
             "client_failed_exchange_at_every_point",
             vec![FaultKind::Nack(0x9c), FaultKind::Nack(0x00), FaultKind::Foreign(0x06, 0xd8), FaultKind::BadBody, FaultKind::Junk, FaultKind::Eof, FaultKind::Reset],
-        )],
+        ), fault_then_fault_in_retry_handshake(vec![FaultKind::Foreign(0x06, 0xd8), FaultKind::BadBody, FaultKind::Junk])],
         // dispatch: a packet outside the reply set is a failure wherever it turns up
         "C15" => vec![single_faults(
             "client_foreign_packet_at_every_point",
